@@ -115,7 +115,15 @@ class FormWorld:
         from ufl.form import BaseForm
 
         if isinstance(x, BaseForm):
-            return ("baseform", repr(x), hash(x), tuple(repr(a) for a in x.arguments()), tuple(repr(w) for w in getattr(x, "weights", lambda: ())()))
+            # the parts a FormSum / Action / ... is made of are lists held by the object: a later operation that
+            # re-uses such a list (s + c3 appending to s's own components) changes them without changing repr or hash
+            comps = tuple(repr(c) for c in getattr(x, "components", lambda: ())())
+            opers = tuple(repr(o) for o in getattr(x, "ufl_operands", ()))
+            try:
+                coefs = tuple(repr(c) for c in x.coefficients())
+            except Exception as exc:  # noqa: BLE001
+                coefs = ("raises " + type(exc).__name__,)
+            return ("baseform", repr(x), hash(x), tuple(repr(a) for a in x.arguments()), tuple(repr(w) for w in getattr(x, "weights", lambda: ())()), comps, opers, coefs)
         return ("other", repr(x))
 
     def apply(self, op, args):
@@ -289,7 +297,7 @@ def _arity_mismatch():
 def _diff(a, b):
     names = ["kind", "repr", "hash", "signature", "arguments", "coefficients", "constants", "integrals"]
     if a[0] == "baseform":
-        names = ["kind", "repr", "hash", "arguments", "weights"]
+        names = ["kind", "repr", "hash", "arguments", "weights", "components", "operands", "coefficients"]
     for n, x, y in zip(names, a, b):
         if x != y:
             return n
